@@ -6,14 +6,24 @@ stack, the two skip functions, detect_include_guard), Model/IncludeSearch.lean (
 include_file's shortcuts, main.c's options), Model/PPExpr.lean (#if expressions).
 Specification: Spec/CondInclSpec.lean (C11 6.10.1 grammar tree and its evaluation),
 Spec/IncludeSearchSpec.lean (documented search order).  Helper lemmas: Lemmas/CondInclLemmas.lean,
-Lemmas/IncludeSearchLemmas.lean.
+Lemmas/IncludeSearchLemmas.lean, Lemmas/PPExprLemmas.lean.
+
+Every theorem is for all line lists / macro tables / evaluators / configurations / file systems.
+Open item (known finding C10-ppif-int-result-shift): `C10_ifexpr_Statement` is false on the model
+of the code as it is (Findings/C10.lean); `C10_ifexpr_partial` and `C10_groups_c11_partial` hold
+outside the region `intResultOverflows`.
 -/
 import ChibiVerif.Lemmas.CondInclLemmas
+import ChibiVerif.Lemmas.IncludeSearchLemmas
+import ChibiVerif.Lemmas.PPExprLemmas
 
 namespace ChibiVerif.Props.C10
-open ChibiVerif.CondIncl ChibiVerif.Spec.CondIncl
+open ChibiVerif.CondIncl ChibiVerif.Spec.CondIncl ChibiVerif.IncludeSearch ChibiVerif.Spec.IncludeSearch
+open ChibiVerif.PPExpr
 
 variable {ε β : Type}
+
+-- ================================================================== conditional groups
 
 /-- **C10 (groups).**  For every list of lines, every macro table and every evaluator of controlling
     expressions, the machine transcribed from `preprocess2` (directive arms, `cond_incl` stack,
@@ -24,5 +34,269 @@ variable {ε β : Type}
 theorem C10_groups (ev : ε → Defs β → Except Diag Bool) (ls : List (Line ε β)) (d : Defs β) :
     condMachine ev ls d = groups ev ls d :=
   condMachine_eq_groups ev ls d
+
+/-- **C10 (the grammar tree is the input).**  The tree `Spec.groups` evaluates flattens back to
+    exactly the lines it was parsed from (plus the #endif lines supplied for an unterminated input,
+    whose number is the nesting depth at the end); a stray line is a #elif/#else/#endif at depth 0. -/
+theorem C10_parse_roundtrip (ls : List (Line ε β)) :
+    match parse ls with
+    | .done is n => is.flatten = ls ++ List.replicate n (.endif false) ∧ sdepth ls 0 = some n
+    | .stray is l rest => is.flatten ++ l :: rest = ls ∧ isCloser l = true :=
+  parse_spec ls
+
+/-- **C10 (key lemma).**  `skip_cond_incl`, started inside a group – i.e. in front of a balanced
+    sequence `body` of text lines, control lines and complete nested if-sections, followed by the
+    remaining `#elif/#else/#endif` lines `ps` of the enclosing section – returns exactly at the first
+    line of `ps`: the matching directive of *that* nesting level. -/
+theorem C10_skip_returns_at_matching (body : Items ε β) (ps : Parts ε β) (rest : List (Line ε β)) :
+    skipCondIncl (body.flatten ++ (ps.flatten ++ rest)) = ps.flatten ++ rest := by
+  unfold skipCondIncl
+  rw [skipFrom_items body 0, skipFrom_zero_parts]
+
+/-- … and `skip_cond_incl2` (one activation, `skipFrom 1`), started behind a nested `#if`, returns
+    behind the `#endif` that closes it. -/
+theorem C10_skip2_returns_after_endif (body : Items ε β) (ps : Parts ε β) (rest : List (Line ε β)) :
+    skipFrom 1 (body.flatten ++ (ps.flatten ++ rest)) = skipFrom 0 rest := by
+  rw [skipFrom_items body 1, skipFrom_parts ps 0]
+
+/-- the skip modes of the machine are these two functions -/
+theorem C10_skip_modes (ev : ε → Defs β → Except Diag Bool) (ls : List (Line ε β)) (d : Nat) (s : St β) :
+    finish (run ev ls (.skip d) s) = finish (run ev (skipFrom d ls) .proc s) :=
+  run_skip_eq_skipFrom ev ls d s
+
+/-- **C10 (skipped groups have no effect).**  While skipping (at any depth), a balanced sequence of
+    lines – whatever #define, #undef, #error, text or nested conditionals it contains – leaves the
+    macro table, the output and the conditional stack exactly as they were. -/
+theorem C10_skipped_no_effect (ev : ε → Defs β → Except Diag Bool) (body : Items ε β) (d : Nat) (s : St β) :
+    run ev body.flatten (.skip d) s = .ok (s, .skip d) :=
+  run_skip_items ev body d s
+
+/-- … hence the lines of a group that is not selected can be replaced by any other balanced
+    sequence (here: deleted) without changing the result of the translation unit.  Stated for the
+    group of a `#if/#ifdef/#ifndef` whose condition is false. -/
+theorem C10_skipped_group_irrelevant (ev : ε → Defs β → Except Diag Bool) (h : IfHead ε) (body body' : Items ε β)
+    (ps : Parts ε β) (rest : Items ε β) (o : Obs β) (hfalse : evalHead ev h o.defs = .ok false) :
+    (Items.cons (.sec h body ps) rest).eval ev o = (Items.cons (.sec h body' ps) rest).eval ev o := by
+  simp only [Items.eval, Item.eval, hfalse]
+
+example : evalHead (fun (b : Bool) (_ : Defs Unit) => .ok b) (.ifE false) ([] : Defs Unit) = .ok false := rfl
+
+/-- **C10 (trailing tokens).**  The tokens `skip_line` drops after `#else`, `#endif`, `#ifdef X`,
+    `#ifndef X`, `#undef X` never change anything. -/
+theorem C10_trailing (ev : ε → Defs β → Except Diag Bool) (ls : List (Line ε β)) (d : Defs β) :
+    condMachine ev (ls.map Line.clearExtra) d = condMachine ev ls d := by
+  unfold condMachine; rw [run_clearExtra]
+
+/-- the skip functions and the include-guard detector look at directive *names* taken from the
+    code: these are the sets the model's line classification is built on (regenerated from
+    preprocess.c on every run; a changed set breaks this theorem). -/
+theorem C10_directive_sets :
+    ChibiVerif.Gen.C10Incl.skipOpen = ["if", "ifdef", "ifndef"] ∧
+    ChibiVerif.Gen.C10Incl.skipStop = ["elif", "else", "endif"] ∧
+    ChibiVerif.Gen.C10Incl.skip2Open = ["if", "ifdef", "ifndef"] ∧
+    ChibiVerif.Gen.C10Incl.skip2Stop = ["endif"] ∧
+    ChibiVerif.Gen.C10Incl.guardOpen = ["if", "ifdef", "ifndef"] ∧
+    ChibiVerif.Gen.C10Incl.guardReject = ["elif", "else"] ∧
+    ChibiVerif.Gen.C10Incl.guardClose = ["endif"] ∧
+    ChibiVerif.Gen.C10Incl.skipNullFirst = true ∧
+    ChibiVerif.Gen.C10Incl.dispatchNullFirst = true ∧
+    ChibiVerif.Gen.C10Incl.skipLineUntilBol = true := by decide
+
+-- ================================================================== #if expressions
+
+/-- full statement: chibicc's `eval_const_expr` computes the value C11 6.10.1p4 defines
+    (intmax_t / uintmax_t arithmetic, `defined`, remaining identifiers 0).  FALSE for the code as it
+    is: Findings/C10.lean, `C10_finding_ifexpr`. -/
+def C10_ifexpr_Statement : Prop := ∀ (defs : Defs Body) (e : Expr), evC e defs = ev e defs
+
+/-- **C10 (#if arithmetic, partial).**  Outside the region of C10-ppif-int-result-shift – no
+    intermediate result that chibicc types `int` (results of `< <= > >= == != ! && ||` and arithmetic
+    on them) leaves the 32-bit range when the expression is evaluated by the rules of C11 – chibicc
+    computes exactly the C11 value: same truth value, same diagnostics (division by zero in an
+    evaluated operand; `&&`, `||`, `?:` do not evaluate the operand not selected). -/
+theorem C10_ifexpr_partial (defs : Defs Body) (e : Expr) (h : intResultOverflows defs e = false) :
+    evC e defs = ev e defs :=
+  evC_eq_ev_of_no_overflow defs e h
+
+/-- non-vacuity: `-1 < 0u` lies outside the region and is false; `0 && 1/0` is accepted and false -/
+example : intResultOverflows [] (.bin .lt (.un .neg (.num 1 false)) (.num 0 true)) = false ∧
+    ev (.bin .lt (.un .neg (.num 1 false)) (.num 0 true)) [] = .ok false ∧
+    ev (.bin .land (.num 0 false) (.bin .div (.num 1 false) (.num 0 false))) [] = .ok false := by decide
+
+/-- **C10 (`defined`, token level).**  `read_const_expr` replaces `defined X` and `defined ( X )` by
+    `1`/`0` according to the macro table *before* macro expansion (so `X` itself is never expanded),
+    and leaves every other token alone. -/
+theorem C10_defined_forms (isDef : String → Bool) (x : String) (pre post : List Tok)
+    (hpre : ∀ t ∈ pre, t ≠ .ident "defined") (hpost : ∀ t ∈ post, t ≠ .ident "defined") :
+    readDefined isDef (pre ++ .ident "defined" :: .ident x :: post)
+        = .ok (pre ++ .num (if isDef x then "1" else "0") :: post) ∧
+    readDefined isDef (pre ++ .ident "defined" :: .punct "(" :: .ident x :: .punct ")" :: post)
+        = .ok (pre ++ .num (if isDef x then "1" else "0") :: post) := by
+  have hp := readDefined_no_defined isDef post hpost
+  constructor
+  · induction pre with
+    | nil => simp [readDefined, hp]
+    | cons t pre ih =>
+      have ht : t ≠ .ident "defined" := hpre t (by simp)
+      have ih' := ih (fun t' ht' => hpre t' (by simp [ht']))
+      simp only [List.cons_append]
+      unfold readDefined
+      split <;> simp_all
+  · induction pre with
+    | nil => simp [readDefined, hp]
+    | cons t pre ih =>
+      have ht : t ≠ .ident "defined" := hpre t (by simp)
+      have ih' := ih (fun t' ht' => hpre t' (by simp [ht']))
+      simp only [List.cons_append]
+      unfold readDefined
+      split <;> simp_all
+
+/-- **C10 (remaining identifiers are 0).**  After `eval_const_expr`'s replacement pass no identifier
+    is left (keywords are identifiers at this stage), and in the value semantics an identifier that is
+    not a macro has the value 0 of type intmax_t. -/
+theorem C10_identifiers_zero (ts : List Tok) (defs : Defs Body) (n : String) (hn : defs.lookup n = none) :
+    (∀ t ∈ identToZero ts, t.isIdent = false) ∧ evalTop defs (.ident n) = .ok ⟨0, false⟩ := by
+  refine ⟨identToZero_no_ident ts, ?_⟩
+  simp [evalTop, hasNonExpr, evalN, FUEL, hn]
+
+/-- full statement at the level of translation units: the machine with chibicc's evaluator selects
+    the text C11 selects.  FALSE (same finding). -/
+def C10_groups_c11_Statement : Prop :=
+  ∀ (ls : List (Line Expr Body)) (d : Defs Body), condMachine evC ls d = groups ev ls d
+
+/-- **C10 (groups against C11 arithmetic, partial).**  If no controlling expression of the unit lies
+    in the region (under any macro table), the machine with chibicc's evaluator produces exactly what
+    the C11 grammar tree with the C11 evaluator produces. -/
+theorem C10_groups_c11_partial (ls : List (Line Expr Body)) (d : Defs Body)
+    (h : ∀ c ∈ conds ls, ∀ d', intResultOverflows d' c = false) :
+    condMachine evC ls d = groups ev ls d := by
+  rw [condMachine_congr evC ev ls (fun c hc d' => C10_ifexpr_partial d' c (h c hc)) d]
+  exact C10_groups ev ls d
+
+/-- non-vacuity: a unit whose conditions are comparisons shifted by less than 31 -/
+example : ∀ c ∈ conds ([.opens (.ifE (.bin .shl (.bin .lt (.num 1 false) (.num 2 false)) (.num 3 false))),
+      .plain (.text ["a"]), .part (.elif (.num 1 true)), .endif false] : List (Line Expr Body)),
+    ∀ d', intResultOverflows d' c = false := by
+  intro c hc d'
+  simp only [conds, List.filterMap_cons, Line.cond?, List.filterMap_nil, List.mem_cons, List.not_mem_nil, or_false] at hc
+  rcases hc with rfl | rfl <;> rfl
+
+-- ================================================================== include search
+
+/-- **C10 (search order).**  `include_paths` as main.c assembles it for the cc1 child is: the -I
+    directories in command-line order, then the system directories, then the -idirafter directories
+    (order of the pushes regenerated from main.c on every run). -/
+theorem C10_search_order (c : Config) : includePaths c = c.iDirs ++ c.sysDirs ++ c.idirafter :=
+  includePaths_eq_chain c
+
+/-- **C10 (search).**  For every configuration, file system, including file, spelling and cache
+    content that earlier searches can have produced: `#include "name"` opens the file the documented
+    order names – the directory of the including file first (quoted form only), then -I, system,
+    -idirafter – and `#include <name>` the same without the first step; when there is none the name
+    itself is handed to `include_file`. -/
+theorem C10_search (fsx : String → Bool) (c : Config) (cache : Cache) (cur : String) (dq : Bool) (name : String)
+    (hc : CacheOK fsx (includePaths c) cache) :
+    (resolveInclude fsx (includePaths c) cache cur dq name).1 = (search fsx c (dirname cur) dq name).getD name :=
+  resolveInclude_eq_search fsx c cache cur dq name hc
+
+/-- the hypothesis of `C10_search` holds initially … -/
+example (fsx : String → Bool) (c : Config) : CacheOK fsx (includePaths c) [] := CacheOK_nil fsx _
+
+/-- **C10 (the cache never changes an answer).**  A cached lookup returns what an uncached lookup
+    returns, and leaves a cache of which this is true again (so the hypothesis `CacheOK` of
+    `C10_search` holds throughout a run that starts with the empty cache). -/
+theorem C10_cache_transparent (fsx : String → Bool) (paths : List String) (cache : Cache) (name : String)
+    (hc : CacheOK fsx paths cache) :
+    (searchIncludePaths fsx paths cache name).1 = (searchIncludePaths fsx paths [] name).1 ∧
+    CacheOK fsx paths (searchIncludePaths fsx paths cache name).2 :=
+  searchIncludePaths_cache fsx paths cache name hc
+
+/-- **C10 (#include_next).**  `#include_next` searches the documented chain after the first
+    directory of the chain that contains the current file (the whole chain if there is none) … -/
+theorem C10_search_next (fsx : String → Bool) (c : Config) (name cur : String) :
+    searchIncludeNext fsx (includePaths c) name cur = searchNext fsx c (dirPrefixIdx (includePaths c) cur) name :=
+  searchIncludeNext_eq fsx c name cur
+
+/-- … and that directory is the one in which the current file was found, provided no earlier
+    directory of the chain is a path prefix of it (include directories not nested in one another). -/
+theorem C10_search_next_found_dir (c : Config) (i : Nat) (hi : i < (includePaths c).length) (n : String)
+    (hno : ∀ j (hj : j < i), isDirPrefix ((includePaths c)[j]'(Nat.lt_trans hj hi)) (joinPath (includePaths c)[i] n) = false) :
+    dirPrefixIdx (includePaths c) (joinPath (includePaths c)[i] n) = some i :=
+  dirPrefixIdx_found _ i hi n hno
+
+/-- non-vacuity: -I A -I B, system S, -idirafter Z; the file A/x.h was found in directory 0, B/x.h
+    in directory 1, S/x.h in directory 2 -/
+example : dirPrefixIdx (includePaths ⟨["A", "B"], ["S"], ["Z"]⟩) "B/x.h" = some 1 ∧
+    searchIncludeNext (fun p => p == "A/x.h" || p == "S/x.h" || p == "Z/x.h") (includePaths ⟨["A", "B"], ["S"], ["Z"]⟩)
+      "x.h" "A/x.h" = some "S/x.h" := by decide
+
+-- ================================================================== re-inclusion shortcuts
+
+/-- **C10 (include guards).**  If `detect_include_guard` accepts a file (returns the guard macro
+    `g`), then processing the file's lines in any state in which `g` is defined produces no tokens,
+    leaves the macro table unchanged and leaves the conditional stack unchanged – whatever follows. -/
+theorem C10_shortcuts (ev : ε → Defs β → Except Diag Bool) (file : List (Line ε β)) (g : String)
+    (hg : detectGuard file = some g) (s : St β) (hdef : s.obs.defs.isDef g = true) (rest : List (Line ε β)) :
+    run ev (file ++ rest) .proc s = run ev rest .proc s := by
+  rw [run_append, run_guarded_file ev file g hg s hdef]
+
+/-- non-vacuity: a guarded header with a nested conditional and a null directive -/
+example : detectGuard ([.opens (.ifndef "G" false), .plain (.define "G" ()), .plain .other, .opens (.ifE true),
+    .plain (.text ["a"]), .part (.els false), .endif true, .plain (.text ["b"]), .endif false] : List (Line Bool Unit))
+    = some "G" := by decide
+
+/-- almost-guarded shapes are rejected: text after the closing #endif, an #else of the guard, tokens
+    after `#ifndef G`, tokens after the last `#endif` -/
+example :
+    detectGuard ([.opens (.ifndef "G" false), .plain (.define "G" ()), .endif false, .plain (.text ["y"]),
+      .opens (.ifE true), .endif false] : List (Line Bool Unit)) = none ∧
+    detectGuard ([.opens (.ifndef "G" false), .plain (.define "G" ()), .part (.els false), .endif false] : List (Line Bool Unit)) = none ∧
+    detectGuard ([.opens (.ifndef "G" true), .plain (.define "G" ()), .endif false] : List (Line Bool Unit)) = none ∧
+    detectGuard ([.opens (.ifndef "G" false), .plain (.define "G" ()), .endif true] : List (Line Bool Unit)) = none := by decide
+
+/-- **C10 (`#pragma once`).**  `#pragma once` records the file it stands in; a recorded file
+    contributes nothing when included again (no tokens, no state change); records are never removed by
+    `include_file`. -/
+theorem C10_pragma_once (ev : ε → Defs β → Except Diag Bool) (fs : FS ε β) (paths : List String) (b : Bool)
+    (file path : String) (s : IState β) :
+    stepInc ev fs paths b file .pragmaOnce .proc s = .ok ([], { s with once := file :: s.once }, .proc) ∧
+    (s.once.contains path = true → includeFile fs b path s = .ok ([], s)) ∧
+    (∀ ls s', includeFile fs b path s = .ok (ls, s') → s'.once = s.once) :=
+  ⟨rfl, includeFile_once fs b path s, fun ls s' h => includeFile_once_mono fs b path s s' ls h⟩
+
+/-- **C10 (shortcuts = plain textual inclusion, every include graph).**  For every file system,
+    search path, input and state whose `include_guards` table was filled by `detect_include_guard`
+    (in particular the empty table a run starts with): whenever the machine *without* the
+    include-guard shortcut (every #include splices the file's lines) finishes, the machine *with* the
+    shortcut finishes in the same state: same emitted text, same macro table, same conditional stack. -/
+theorem C10_shortcuts_graph (ev : ε → Defs β → Except Diag Bool) (fs : FS ε β) (paths : List String)
+    (fuel : Nat) (lines : List (String × ILine ε β)) (m : Mode) (s : IState β) (r : IState β × Mode)
+    (hok : GuardsOK fs s.guards)
+    (h : runInc ev fs paths false fuel lines m s = .ok r) :
+    runInc ev fs paths true fuel lines m s = .ok r :=
+  runInc_guards_transparent ev fs paths fuel lines m s r hok h
+
+example (fs : FS ε β) : GuardsOK fs [] := GuardsOK_nil fs
+
+-- ================================================================== command line
+
+/-- **C10 (command line).**  `-D` and `-U` are applied to the macro table in command-line order
+    while the command line is scanned – exactly as if the corresponding `#define` / `#undef` lines
+    stood, in that order, in front of everything else – and the translation unit handed to
+    `preprocess` is the `-include` files in command-line order followed by the main file. -/
+theorem C10_cmdline (ev : ε → Defs β → Except Diag Bool) (os : List (Opt β)) (d : Defs β) (out : List (List String))
+    (st : List Frame) :
+    run ev (duLines (ε := ε) os) .proc ⟨⟨d, out⟩, st⟩ = .ok (⟨⟨applyDU d os, out⟩, st⟩, .proc) :=
+  run_duLines ev os d out st
+
+/-- the `-include` part: with two `-include` options the stream is file 1, file 2, main file -/
+example : cmdStream ([("a.h", [.c (.plain (.text ["a"]))]), ("b.h", [.c (.plain (.text ["b"]))]),
+      ("m.c", [.c (.plain (.text ["m"]))])] : FS Bool Unit) [] ["a.h", "b.h"] [] "m.c"
+    = .ok ([("a.h", .c (.plain (.text ["a"]))), ("b.h", .c (.plain (.text ["b"]))), ("m.c", .c (.plain (.text ["m"])))], []) := by
+  decide
+
+/-- last write wins in command-line order: `-DX -UX` leaves X undefined, `-UX -DX` defined -/
+example : (applyDU ([] : Defs Unit) [.D "X" (), .U "X"]).isDef "X" = false ∧
+    (applyDU ([] : Defs Unit) [.U "X", .D "X" ()]).isDef "X" = true := by decide
 
 end ChibiVerif.Props.C10
